@@ -1102,6 +1102,12 @@ func (t *Topic) handlePubBroadcast(msg *ClientComMessage) {
 		return
 	}
 
+	if t.cat == types.TopicCatMe || t.cat == types.TopicCatFnd {
+		// Nothing is published to 'me' or 'fnd': there is no topic record to number or to hold the messages.
+		msg.sess.queueOut(ErrPermissionDenied(msg.Id, t.original(asUid), msg.Timestamp))
+		return
+	}
+
 	isCall := msg.Pub.Head != nil && msg.Pub.Head["webrtc"] != nil
 	if isCall {
 		if len(globals.iceServers) == 0 {
